@@ -236,6 +236,25 @@ static int in_set(const char *k, char **set, int n)
 }
 
 static struct json_object *visit_root;
+/* vdel: the visitor as an iteration form that deletes the member it is called for (and skips it) */
+static char **vdel_set;
+static int vdel_ns;
+static int in_set(const char *k, char **set, int ns);
+static void it_add(const char *k, long v);
+static long oval(struct json_object *v);
+static int vdel_cb(json_object *jso, int flags, json_object *parent, const char *key, size_t *index, void *userarg)
+{
+	(void)index; (void)userarg;
+	if (parent != visit_root || !key || (flags & JSON_C_VISIT_SECOND))
+		return JSON_C_VISIT_RETURN_CONTINUE;
+	it_add(key, oval(jso));
+	if (in_set(key, vdel_set, vdel_ns))
+	{
+		json_object_object_del(parent, key); /* key and jso are gone now */
+		return JSON_C_VISIT_RETURN_SKIP;
+	}
+	return JSON_C_VISIT_RETURN_CONTINUE;
+}
 static int visit_cb(json_object *jso, int flags, json_object *parent, const char *key, size_t *index, void *userarg)
 {
 	(void)index; (void)userarg;
@@ -561,6 +580,23 @@ int main(void)
 			}
 			else { puts("bad-op"); fflush(stdout); continue; }
 			it_end();
+			show(0, 0, 0, itbuf, -1, 0);
+		}
+		else if (O && NW >= 1 && !strcmp(W[0], "vdel"))
+		{
+			char *set[MAXW];
+			int ns = 0;
+			for (int i = 1; i < NW; i++)
+				set[ns++] = unhexz(W[i], NULL);
+			it_begin();
+			visit_root = O;
+			vdel_set = set;
+			vdel_ns = ns;
+			int vr = json_c_visit(O, 0, vdel_cb, NULL);
+			it_end();
+			for (int i = 0; i < ns; i++)
+				free(set[i]);
+			if (vr != 0) { puts("json_c_visit failed"); fflush(stdout); continue; }
 			show(0, 0, 0, itbuf, -1, 0);
 		}
 		else if (O && NW >= 1 && (!strcmp(W[0], "fdel") || !strcmp(W[0], "fcdel")))
